@@ -7,6 +7,10 @@ mod prng {
 }
 mod k28;
 mod k35;
+mod k27;
+mod fileio;
+mod quiet;
+mod probe;
 mod c26;
 mod c27;
 mod c28;
@@ -15,12 +19,14 @@ mod c40;
 
 fn main() {
     let args = parse_args();
+    quiet::install();
     let code = match args.prop.as_str() {
         "C26" => c26::run(&args),
         "C27" => c27::run(&args),
         "C28" => c28::run(&args),
         "C35" => c35::run(&args),
         "C40" => c40::run(&args),
+        "PROBE" => probe::run(),
         other => {
             eprintln!("HARNESS-ERROR e_codec does not serve property '{other}'");
             2
